@@ -101,7 +101,7 @@ class NNArray(Contract):
         combs = ctx.__dict__.get("combinations", [])
         summ = [s_ for s_ in ctx.__dict__.get("summaries", []) if s_.get("filter") is not None]
         if not tms or not combs or not summ or getattr(summ[-1]["filter"], "filter_of", None) is None:
-            V.oblige("post:ghost-handles[triplets, combinations, filter] found", False)
+            raise Unsupported("ghost handles (triplets, combinations, filter) not found: the contract does not fit this code")
             return
         T = tms[-1]
         row, col, data = T.triplets
